@@ -283,6 +283,60 @@ func parseTok(d *json.Decoder) (V, error) {
 	return V{}, fmt.Errorf("token %v", t)
 }
 
+// Compact re-introduces the compact descriptions of deep nesting and of long one-letter strings (so that op lines stay
+// small and shallow whatever the wire carried).
+func Compact(v V) V {
+	switch v.K {
+	case 's':
+		if n := len([]rune(v.S)); n >= 1024 {
+			rs := []rune(v.S)
+			same := true
+			for _, r := range rs {
+				if r != rs[0] {
+					same = false
+					break
+				}
+			}
+			if same {
+				return BigStr(rs[0], n)
+			}
+		}
+		return v
+	case 'a', 'o':
+		// length of the chain of single-element arrays / single-member {"k": …} objects starting here
+		depth := 0
+		cur := v
+		for {
+			if v.K == 'a' && cur.K == 'a' && len(cur.A) == 1 {
+				cur = cur.A[0]
+			} else if v.K == 'o' && cur.K == 'o' && len(cur.O) == 1 && cur.O[0].K == "k" {
+				cur = cur.O[0].V
+			} else {
+				break
+			}
+			depth++
+		}
+		if depth >= 64 {
+			return Deep(v.K, depth, Compact(cur))
+		}
+		out := V{K: v.K}
+		for _, x := range v.A {
+			out.A = append(out.A, Compact(x))
+		}
+		for _, kv := range v.O {
+			out.O = append(out.O, KV{kv.K, Compact(kv.V)})
+		}
+		if v.K == 'a' && out.A == nil {
+			out.A = []V{}
+		}
+		if v.K == 'o' && out.O == nil {
+			out.O = []KV{}
+		}
+		return out
+	}
+	return v
+}
+
 // ---- canonical form of what a server emitted
 
 // Canon parses one emitted JSON-RPC message into the shape the Lean driver prints: objects as maps, integer-valued
